@@ -18,7 +18,19 @@ run_demo() { (cd "$SV" && export QUANSINO_SRC="$SV/src" && if echo "$DEMO" | gre
 D0=$(run_demo)
 git -C "$SV" apply "$OUT/patch.diff" || { echo "PATCH DOES NOT APPLY"; git -C /repo worktree remove --force "$SV"; exit 1; }
 D1=$(run_demo)
-T=$(cd "$SV" && /venv/bin/python -m pytest -q -p no:cacheprovider --timeout=900 -n 8 2>&1 | tail -1)
+run_suite() { (cd "$SV" && /venv/bin/python -m pytest -q -rf -p no:cacheprovider --timeout=900 -n 8 > /tmp/seed_suite_$NAME.log 2>&1; tail -1 /tmp/seed_suite_$NAME.log); }
+T=$(run_suite)
+FAILED=$(grep '^FAILED' /tmp/seed_suite_$NAME.log | sed 's/ - .*//' | tr '\n' ' ')
+if [ -n "$FAILED" ]; then
+  # the two unseeded ensemble tests are flaky on the unchanged tree as well (BASELINE.json lists one as known-flaky):
+  # a failure confined to them is re-run once, both results are recorded
+  if ! echo "$FAILED" | tr ' ' '\n' | grep -v '^$' | grep -qv 'test_isotension_simulation_with_mask\|test_isobaric_simulation'; then
+    T2=$(run_suite)
+    T="$T [failed: $FAILED— unseeded flaky test(s); second run: $T2]"
+  else
+    T="$T [failed: $FAILED]"
+  fi
+fi
 git -C /repo worktree remove --force "$SV"; rm -rf "$SV"
 sed -i "s#$SV#<scratch worktree>#g" "$OUT/$DEMO"
 echo "SEED $NAME: demo_without=$D0 demo_with=$D1 tests='$T'"
